@@ -16,6 +16,7 @@ from fractions import Fraction
 
 from ..lib import core
 from ..lib.core import Failure, Disagreement
+from ..extract import frameshape as _ex
 
 PROP = "C16"
 LEAN_MODULE = "NixModel.Props.C16"
@@ -24,6 +25,28 @@ THEOREMS = [
     "Nix.C16.C16_frame",
     "Nix.C16.C16_shape_consistent",
     "Nix.C16.C16_refused_unchanged",
+    "Nix.C16.C16_welltyped_stored",
+    "Nix.C16.C16_index_addresses_itself",
+    # every read API is a view of the stored table
+    "Nix.C16.C16_read_cell_is_table",
+    "Nix.C16.C16_read_rows_is_table",
+    "Nix.C16.C16_read_columns_is_table",
+    "Nix.C16.C16_cell_write_read_everywhere",
+    # every refusal class is refused (frame returned unchanged)
+    "Nix.C16.C16_refuses_wrong_length",
+    "Nix.C16.C16_refuses_unknown_column",
+    "Nix.C16.C16_refuses_out_of_range_row",
+    "Nix.C16.C16_refuses_duplicate_column_name",
+    "Nix.C16.C16_refuses_unordered_rows",
+    "Nix.C16.C16_refuses_unfit_cell",
+    # creation variants, units
+    "Nix.C16.C16_creation_schema",
+    "Nix.C16.C16_created_reads_back",
+    "Nix.C16.C16_columns_units",
+    # shape of the source (Generated/FrameShape.lean, regenerated on every run)
+    "Nix.C16.C16_handles_stateless",
+    "Nix.C16.C16_guards_as_modelled",
+    "Nix.C16.C16_calls_as_modelled",
 ]
 ASSUMPTIONS = [
     "cells are Python int / finite float / bool / str; floats are compared as the exact rationals they denote",
@@ -38,8 +61,11 @@ ASSUMPTIONS = [
     "OverflowError is canonicalised to ValueError, DuplicateColumnName to DuplicateName, h5py's OSError for an "
     "out-of-extent selection to IndexError",
     "frame names / block-level state are outside the single-frame model (duplicate frame name is an oracle case)",
-    "closing and reopening the file is the identity in the model (handles are stateless); tied by reopen operations "
-    "inside the generated histories",
+    "closing and reopening the file is the identity in the model; tied by reopen operations inside the generated "
+    "histories",
+    "the model has one table per frame whatever DataFrame object is used: C16_handles_stateless proves from the "
+    "regenerated source shape that DataFrame objects carry no state; histories go through up to 4 live objects of "
+    "the frame and read through each of them after every write",
 ]
 TRUSTED_EXTRA = []
 
@@ -53,6 +79,10 @@ BAD_NUM_STRS = ["x", "é", "", "a b", "q7"]
 FLOATS = [0.0, 1.5, -2.25, 1e10, 3.0, 0.1, 20.18, -1e-3, 123456.789, 2.0 ** -20, 1e300, -7.0, 5e-324, 0.5]
 SMALL_FLOATS = [0.0, 1.5, -2.25, 3.0, 0.1, 20.18, -0.5, 99.99, -7.0, 2.7, -2.7]
 UNITS = ["mV", "s", "A", "Hz", "ms", "uV", "kg", "ly", "V/m", "mA"]
+
+
+def extract(repo):
+    return _ex.extract(repo)
 
 
 def _nix():
@@ -1207,6 +1237,12 @@ FIXED_CASES = [
      _acc(["write_cell_pos", ["f", "11/2"], [2, 2]]), _acc(["handle", 2]),
      _acc(["append_column", [["b", True], ["b", False], ["b", True]], "flag", None]), _acc(["handle", 1]),
      _acc(["write_cell_name", ["b", False], "flag", -1])],
+    # write_column is all-or-nothing (fix 2f1693f): a cell the column type refuses in a later row leaves the earlier
+    # rows as they were
+    [["create_dict", [["a", "i8"], ["s", "text"]], [[["i", 1], ["s", "p"]], [["i", 2], ["s", "q"]], [["i", 3], ["s", "r"]]]],
+     {"line": ["write_column", [["i", 5], ["i", 6], ["i", 300]], 0, None], "expect": "a cell the column type refuses"},
+     {"line": ["write_column", [["i", 5], ["s", "x"], ["i", 7]], None, "a"], "expect": "a cell the column type refuses"},
+     _acc(["write_column", [["i", 7], ["i", 8], ["i", 9]], -2, None])],
     # creation with zero rows through data=[]
     [["create_dict", [["a", "i64"], ["s", "text"]], []], _acc(["append_rows", [[["i", 1], ["s", "x"]]]])],
     [["create_names_types", ["a", "s"], ["i64", "text"], []]],
@@ -1320,18 +1356,27 @@ MANIFEST = {
                   "every frame reachable from any of the four creation variants by any history of operations, an "
                   "accepted append/overwrite of rows, a column or a cell (by index or name, negative indices "
                   "included) is what read_rows / the cell reads return, converted to the column type (identity on "
-                  "well-typed cells); no operation, accepted or refused, changes a cell it does not address; row "
-                  "and column counts, names, types, units and `columns` describe the stored table (invariant by "
-                  "induction over the history); a refused write leaves the table unchanged (one stated exception: "
-                  "write_column stopped by a cell the column type refuses). The hand-written model is tied to the "
-                  "code by differential histories generated online against real nixio on real HDF5 files, with "
-                  "reopen inside and at the end of every history.",
+                  "well-typed cells); every read API (read_rows by int and list, read_cell by position and name, "
+                  "read_columns by index and name with any slice) is proved to be a view of the one stored table, "
+                  "so what was written is what each of them returns; no operation, accepted or refused, changes a "
+                  "cell it does not address; row and column counts, names, types, units and `columns` describe "
+                  "the stored table (invariant by induction over the history); every refused write leaves the "
+                  "table unchanged (no exception left: write_column was made all-or-nothing by a fix: commit), and "
+                  "each refusal class of the property (wrong length, unknown column, out-of-range row, duplicate "
+                  "column name, also unordered/repeated row indices and unfit cells) is proved to be refused; the "
+                  "schema and the rows each creation variant derives are theorems. The hand-written model is tied "
+                  "to the code by differential histories generated online against real nixio on real HDF5 files "
+                  "(several live DataFrame objects per frame, reopen inside and at the end of every history) and "
+                  "by Generated/FrameShape.lean (guards, helper-call order and per-object state of every modelled "
+                  "method, regenerated from the source by an ast translator; three theorems compare it with the "
+                  "shape the model was written against).",
     "level_note": "Partial aspects: h5py/libhdf5 storage, NumPy scalar conversion and variable-length strings are "
                   "modelled (conv), not verified; reopening is the identity in the model and carried by the "
                   "correspondence; floats are exact rationals (no arithmetic is done on cells); numeric-literal "
                   "strings, ints beyond 2^53 for float columns, out-of-range ints through write_column, NaN/inf, "
-                  "frame names and compression are outside the model. C16_refused_unchanged excepts write_column "
-                  "with a cell the column type refuses (row-by-row loop in the code; not one of the refusal causes "
-                  "the property lists).",
-    "technique": "Lean 4 proof (induction over operation histories, list lemmas) with differential correspondence",
+                  "frame names, copy_from (oracle case only) and compression are outside the model. The shape "
+                  "theorems (guards / calls as modelled) are equalities between a regenerated and a hand-written "
+                  "table: they detect an edit of the source, they do not interpret it.",
+    "technique": "Lean 4 proof (induction over operation histories, list lemmas) with differential correspondence "
+                 "and an ast translator for the source shape",
 }
